@@ -3,6 +3,7 @@ mod core;
 mod gen_eval;
 mod gen_syn;
 mod jr;
+mod model;
 mod props;
 
 use crate::core::{Run, Tier};
